@@ -135,6 +135,17 @@ def check_state(acc, kind, arch, params, st=None, history=None):
                     bad("fidelity:not-1-against-own-state" if tn == "own" else "fidelity:changed-by-global-phase", what, f, 1.0)
                 if not (isinstance(f2, float) and abs(f2 - f) <= 1e-12):
                     bad("fidelity:space-omitted-differs", what, f2, f)
+                # documented deprecated keyword names and ignored extra keywords (MetricEvaluator passes
+                # one keyword set to every metric)
+                import warnings as _w
+                with _w.catch_warnings():
+                    _w.simplefilter("ignore")
+                    dk = "target_rho" if kind == "mixed" else "target_psi"
+                    f3 = call(ts.fidelity, st, space=space, bases=["Z" * n], samples=None, **{dk: c2t(t)})
+                    k3 = call(ts.KL, st, space=space, bases=None, unrelated=3, **{dk: c2t(t)})
+                    k4 = call(ts.KL, st, c2t(t), space, bases=None)
+                if not (isinstance(f3, float) and abs(f3 - f) <= 1e-12 and isinstance(k3, float) and isinstance(k4, float) and (abs(k3 - k4) <= 1e-12 or (k3 != k3 and k4 != k4))):
+                    bad("metrics:deprecated-or-extra-keywords-change-the-result", what, [f3, k3], [f, k4])
             # ---- KL
             for bl in bases_lists(kind, n):
                 for form in ("tensor", "dict", "dict-reordered"):
